@@ -848,23 +848,6 @@ class SymInt:
     def _bv(self, o, f):
         self._nonneg()
         o._nonneg()
-        # both operands symbolic: when both provably fit k <= 32 bits, decompose each into k
-        # fresh 0/1 integers (x == sum 2^i x_i; the decomposition exists and is unique for every
-        # x in range, so asserting it restricts nothing) and combine bit by bit - linear
-        # arithmetic z3 decides quickly, while Int2BV/BV2Int round trips mostly end in "unknown".
-        # The definitions go to the path's solver only, not into the path condition.
-        E = Engine.cur
-        probe = z3.simplify(f(z3.BitVecVal(0b0011, 4), z3.BitVecVal(0b0101, 4))).as_long() if E is not None and not E.dead else None
-        table = {0b0111: lambda s: s >= 1, 0b0001: lambda s: s >= 2, 0b0110: lambda s: s == 1}.get(probe)
-        if table is not None:
-            for k in (8, 16, 32):
-                ok = z3.And(self.z >= 0, self.z < (1 << k), o.z >= 0, o.z < (1 << k))
-                if not E._check(z3.Not(ok)):
-                    xs, ys = E._bits_of(self.z, k), E._bits_of(o.z, k)
-                    total = z3.IntVal(0)
-                    for i in range(k):
-                        total = total + z3.If(table(xs[i] + ys[i]), 1 << i, 0)
-                    return SymInt(total)
         a, b = z3.Int2BV(self.z, 64), z3.Int2BV(o.z, 64)
         return SymInt(z3.BV2Int(f(a, b)))
 
